@@ -17,7 +17,7 @@ import (
 // (random message generator: adapted copy of go/harness/msg/gen.go, extended with well-known types)
 
 var ints = []int64{0, 1, -1, 127, 128, -128, 255, 16383, 16384, math.MaxInt32, math.MinInt32, math.MaxInt64, math.MinInt64, 1 << 35, -(1 << 35), math.MaxUint32, 1 << 53, (1 << 53) + 1}
-var f32s = []uint32{0, 0x80000000, 0x3f800000, 0x7f800000, 0xff800000, 0x7fc00000, 0x00000001, 0x7f7fffff, 0x15ae43fc, 0x33d6bf95, 0xffc00000, 0x358637bd, 0x60ad78ec, 0x00800000, 0x3dcccccd}
+var f32s = []uint32{0, 0x80000000, 0x3f800000, 0x7f800000, 0xff800000, 0x7fc00000, 0x00000001, 0x7f7fffff, 0x15ae43fc, 0x15ae43fd, 0x95ae43fd, 0x33d6bf95, 0xffc00000, 0x358637bd, 0x60ad78ec, 0x00800000, 0x3dcccccd}
 var f64s = []uint64{0, 0x8000000000000000, 0x3ff0000000000000, 0x7ff0000000000000, 0xfff0000000000000, 0x7ff8000000000001, 1, 0x7fefffffffffffff, 0x3fb999999999999a, 0x3eb0c6f7a0b5ed8d, 0x444b1ae4d6e2ef50, 0x0010000000000000}
 var strsv = []string{"", "a", "hello", "héllo", "日本", "\x00", "\"quote\\", "line\nbreak", " ", "tab\t", "😀", "</script>", " ", "\x7f", "true", "null", "123", "[x]", "a.b", strings.Repeat("x", 130)}
 
@@ -68,16 +68,13 @@ func scalar(c *vh.Ctx, fd protoreflect.FieldDescriptor, o Opts) protoreflect.Val
 		if r.Intn(2) == 0 {
 			b = r.Uint32()
 		}
-		// signaling NaNs are quieted by the float64 round trip of protoreflect.Value (finding 12);
-		// the two double-rounding values of finding 15 have their own stream
+		// signaling NaNs are quieted by the float64 round trip of protoreflect.Value (finding 12); the two former
+		// double-rounding values of finding 15 (0x15ae43fd, 0x95ae43fd; fixed in /repo e864d0a) are in the pool
 		if b&0x7f800000 == 0x7f800000 && b&0x007fffff != 0 {
 			b |= 0x00400000
 			if o.CanonNaN {
 				b = 0x7fc00000
 			}
-		}
-		if b&0x7fffffff == 0x15ae43fd {
-			b ^= 1
 		}
 		return protoreflect.ValueOfFloat32(math.Float32frombits(b))
 	case protoreflect.DoubleKind:
